@@ -861,7 +861,11 @@ func genC18(g *gen) {
 					k = 0x200
 				}
 				// consecutive sub-shapes, so that the lines of one family cover different sizes
-				g.emit("C18 par %s %s %x %x %x %x", entry, curve, k, cost.g, procs, (g.rng.u64()>>20)<<4|uint64((sub+i)&0xf))
+				nib, gor := (sub+i)&0xf, cost.g
+				if entry == "multiexp" && nib&1 == 0 && !g.thorough() { // > 4096 points
+					k, gor = 2, 2
+				}
+				g.emit("C18 par %s %s %x %x %x %x", entry, curve, k, gor, procs, (g.rng.u64()>>20)<<4|uint64(nib))
 			}
 		}
 	}
